@@ -23,7 +23,7 @@ THEOREMS = [
     "C13_patch_py_shape", "C13_generated_lists_ok", "C13_listed_are_patched",
     "C13_setup_py_partial", "C13_setup_py_all_programs_partial", "C13_process_survives_os_exit",
     "C13_early_return_restores", "C13_pyproject_partial", "C13_project_files_untouched_partial",
-    "C13_patch_none_refuted", "C13_delete_created_attr_refuted", "C13_pyproject_argv_refuted",
+    "C13_pyproject_argv_restored", "C13_patch_none_refuted", "C13_delete_created_attr_refuted",
     "C13_threads_refuted", "C13_sys_path_refuted", "C13_host_module_purged_refuted",
     "C13_capture_warnings_refuted", "C13_real_fs_ops_refuted",
 ]
@@ -60,9 +60,9 @@ LEVEL_TEXT = ("Theorems over a Gallina model of patch.py and of the setup.py / P
               "absent/None/identity values, cwd, sys.path, sys.meta_path, sys.modules): for every effect sequence and each of the four "
               "endings the listed state is restored under stated guards (C13_setup_py_partial, ..._all_programs_partial, survival of "
               "os._exit, early returns, PEP 517 path, virtual file operations), with obligations on the patch lists and finally layout "
-              "regenerated from /repo on every run, and eight refuted clauses with witnesses that replay on the real code.")
+              "regenerated from /repo on every run, sys.argv restored on the PEP 517 path (repo commit 147f414), and seven refuted clauses with witnesses that replay on the real code.")
 LEVEL_NOTE = ("Partial: the unguarded statement is false of the unchanged code (None-valued attributes are deleted; deleting an "
-              "attribute the analyser created aborts the restores; sys.path inserts, PEP 517 sys.argv, captureWarnings, real os.mkdir/"
+              "attribute the analyser created aborts the restores; sys.path inserts, captureWarnings, PEP 517 backend module / os._exit, real os.mkdir/"
               "os.remove relative to the cwd, non-LIFO interleaving, eviction of host modules under the fake root).  Scripts are effect "
               "sequences, not Python programs; that generated scripts stay inside the alphabet is established by T2 only.")
 TECHNIQUE = "Rocq proof over a Gallina state-machine model (per-key frame lemmas, LIFO restore lemma, program invariants) + T1 generated patch lists + extraction-based differential correspondence in a worker process"
@@ -982,7 +982,11 @@ def oracle(case: Dict[str, Any], rec: Dict[str, Any], strict: bool = False) -> O
         return "sys.meta_path changed"
     mods0 = rest[3 + npath + nmeta + 1:]
     m0 = sorted(mods0[i] + ":" + mods0[i + 1] for i in range(0, len(mods0), 2))
-    if sorted(parts[4].split() if len(parts) > 4 else []) != m0:
+    m1 = parts[4].split() if len(parts) > 4 else []
+    if case.get("kind") == "pyproject" and not case.get("strict_backend"):
+        # listed separately (C13-pyproject-backend-module); not part of what other PEP 517 cases are judged on
+        m1 = [t for t in m1 if not common.unhx(t.split(":")[0]).startswith("c13backend_")]
+    if sorted(m1) != m0:
         return "sys.modules changed (project or fake modules left behind, or host modules removed)"
     if rec["untracked_mods"]:
         return "sys.modules changed: " + ",".join(rec["untracked_mods"][:3])
@@ -1021,6 +1025,25 @@ def search(ctx: Ctx) -> Optional[Dict[str, Any]]:
         for en in ("finish", "raise", "sysexit", "osexit"):
             c = gen_case(rng, i, keys, real_fallback=False)
             c.update({"kind": "setup", "packaging": rng.choice(["dir", "tgz", "zip"]), "name": "c13p%d" % i,
+                      "init": {"captured": True, "host_mods": [], "cwd_in_project": False}, "imports": [], "fops": [],
+                      "ops": [["W", m, a, ["G", 7]]], "setup_at": 0, "ending": en})
+            c.pop("early", None)
+            directed.append(c)
+            i += 1
+    info = {}
+    try:
+        info = tr_c13.read_pyproject()
+    except tr_c13.TranslateError:
+        pass
+    py_keys = [(m, a) for m, a, _ in info.get("pyproject", [])] + [("sys", "argv"), ("sys", "stdout"), ("sys", "stderr")]
+    seen_py = set()
+    for (m, a) in py_keys:
+        if m == "root_logger" or (m, a) in seen_py:
+            continue
+        seen_py.add((m, a))
+        for en in ("finish", "raise"):
+            c = gen_case(rng, i, keys, real_fallback=False)
+            c.update({"kind": "pyproject", "packaging": "dir", "name": "c13p%d" % i,
                       "init": {"captured": True, "host_mods": [], "cwd_in_project": False}, "imports": [], "fops": [],
                       "ops": [["W", m, a, ["G", 7]]], "setup_at": 0, "ending": en})
             c.pop("early", None)
